@@ -428,6 +428,13 @@ def unknown_is_deferred(F, rep):
                             for cnd in [x_ for x_ in nodes(src3) if x_.get("k") == "If"] + ([src3] if isinstance(src3, dict) and src3.get("k") == "If" else []):
                                 if "inside_pure" in pp(cnd["c"]) and pp(tc.n_tail(cnd["t"])).endswith("Purity::Pure"):
                                     ok_p = True
+                            for mt in [x_ for x_ in nodes(src3) if x_.get("k") == "Match"]:
+                                if "inside_pure" not in pp(mt["scrut"]):
+                                    continue
+                                for a3 in mt["arms"]:
+                                    pt = pat_strip(a3["pat"])
+                                    if pt.get("k") == "LitPat" and pt["lit"].get("v") is True and pp(tc.n_tail(a3["body"])).endswith("Purity::Pure"):
+                                        ok_p = True
                         rep.ob("INFERENCE", "%s|settled-shape-passes-the-purity-guard#%d" % (last(fn["_path"], 2), k), ok_p,
                                "the function type made for a callee that is not known yet is Pure inside a pure function" if ok_p else
                                "the function type %s makes for a callee that is not known yet does not become Pure under `inside_pure`, but the "
